@@ -27,11 +27,12 @@ BOUNDS = {'serializer': 'scripted generator of <= 3 chunks (raising after k chun
           'faults': 'serializer raises after k chunks | k-th write raises | close/flush raises | none, k in 0..3',
           'crash point': 'symbolic index over the numbered FS operations (create, flush, rename, remove, fsync, truncate, copy-data); after it nothing reaches the disk',
           'destination': 'initially absent or holding an old complete record',
+          'histories': 'one run; and two runs to the same destination where the first (longer record) dies at a symbolic FS operation and the second runs fault-free on whatever the first left on the disk',
           'file name patterns': "'{dut_id}.{metadata[test_name]}.json', '%(dut_id)s.%(station_id)s', callable"}
-STUBS = ['MemFS (vlib/memfs.py): tempfile.NamedTemporaryFile, open, shutil.move/copyfile, os.rename/replace/remove/fsync/stat replaced inside callbacks and atomic_write; buffered writes reach the disk on flush/close; rename/move atomic (same file system); copyfile is truncate+write']
+STUBS = ['MemFS (vlib/memfs.py): tempfile.NamedTemporaryFile (always a fresh name, as O_EXCL guarantees), open, os.open/os.fdopen (O_CREAT/O_EXCL/O_TRUNC/O_APPEND, in-place overwrite otherwise), shutil.move/copyfile, os.rename/replace/remove/fsync/stat replaced inside callbacks and atomic_write; buffered writes reach the disk on flush/close; rename/move atomic (same file system); copyfile is truncate+write']
 ASSUMPTIONS = ['staging directory and destination are on the same file system (as the statement says)',
                'the kernel performs rename atomically and does not reorder the numbered operations']
-OUTSIDE = ['a real kernel / power loss semantics (fsync ordering)', 'attachments I/O', 'mfg_inspector and other subclasses']
+OUTSIDE = ['file-system primitives MemFS does not model (their use makes the check INCONCLUSIVE, exit 2, not a violation)', 'a real kernel / power loss semantics (fsync ordering)', 'attachments I/O', 'mfg_inspector and other subclasses']
 
 OLD = b'OLD-COMPLETE-RECORD'
 CHUNKS = ('AAA', 'BB', 'C')
@@ -64,13 +65,14 @@ class ScriptedOutput(CB.OutputToFile):
     super().__init__(pattern)
     self.raise_after = raise_after
     self.as_str = as_str
+    self.chunks = CHUNKS
 
   def serialize_test_record(self, test_rec):
     if self.as_str:
       return ''.join(CHUNKS)
 
     def gen():
-      for i, c in enumerate(CHUNKS):
+      for i, c in enumerate(self.chunks):
         if self.raise_after is not None and i == self.raise_after:
           raise Boom('serializer failed after %d chunks' % i)
         yield c
@@ -208,3 +210,60 @@ def c_atomic_write_helper(fault: int, k: int, crash: int, had_old: bool, filesyn
       if name != DEST:
         return False
   return _dest_ok(fs, had_old, FULL, (not raised) and not fs.crashed)
+
+
+LONG_CHUNKS = ('XXXXXXXX', 'YYYYYYYY', 'ZZZZ')      # the record of the earlier, crashed run: longer than FULL
+
+
+@cond(timeout=600)
+def c_crashed_run_then_successful_run(crash: int, had_old: bool, which: int) -> bool:
+  """
+  pre: 0 <= crash <= 8
+  pre: 0 <= which <= 1
+  post: _
+  """
+  # History of two runs to the same destination.  Run 1 writes a long record and the process dies at FS
+  # operation `crash`; everything it left on the disk (staging files included) is the initial state of run 2,
+  # which publishes a shorter record without any fault: the destination then holds exactly that record.
+  fs1 = memfs.MemFS({DEST: OLD} if had_old else {}, crash_at=crash)
+  _install(fs1)
+  try:
+    if which == 0:
+      out1 = ScriptedOutput('{dut_id}.{metadata[test_name]}.json')
+      out1.chunks = LONG_CHUNKS
+      out1(_record())
+    else:
+      with AW.atomic_write(DEST) as f:
+        for c in LONG_CHUNKS:
+          f.write(c)
+  except (Boom, memfs.FsFault):
+    pass
+  fs2 = memfs.MemFS(dict(fs1.files))
+  _install(fs2)
+  if which == 0:
+    ScriptedOutput('{dut_id}.{metadata[test_name]}.json')(_record())
+  else:
+    with AW.atomic_write(DEST) as f:
+      for c in CHUNKS:
+        f.write(c)
+  reach()
+  return fs2.files.get(DEST) == FULL
+
+
+@cond(timeout=60, expect='refute')
+def w_crashed_run_then_successful_run(crash: int) -> bool:
+  """
+  pre: 0 <= crash <= 8
+  post: _
+  """
+  fs1 = memfs.MemFS({}, crash_at=crash)
+  _install(fs1)
+  out1 = ScriptedOutput('{dut_id}.{metadata[test_name]}.json')
+  out1.chunks = LONG_CHUNKS
+  out1(_record())
+  stale = [n for n in fs1.files if n != DEST and fs1.files[n]]
+  fs2 = memfs.MemFS(dict(fs1.files))
+  _install(fs2)
+  ScriptedOutput('{dut_id}.{metadata[test_name]}.json')(_record())
+  # witness: run 1 died leaving a non-empty staging file behind, and run 2 still published exactly its record
+  return not (fs1.crashed and stale and fs2.files.get(DEST) == FULL)
